@@ -209,7 +209,17 @@ impl TypeCheckable for PreObjective {
         context: &mut TypeCheckerContext,
         fn_context: &FunctionContext,
     ) -> Result<(), TransformError> {
-        self.rhs.type_check(context, fn_context)
+        self.rhs.type_check(context, fn_context)?;
+        // the objective is a number, like both sides of a constraint
+        let rhs_type = self.rhs.get_type(context, fn_context);
+        if !rhs_type.is_numeric() && !rhs_type.is_any() {
+            return Err(TransformError::from_wrong_type(
+                PrimitiveKind::Number,
+                rhs_type,
+                self.rhs.span().clone(),
+            ));
+        }
+        Ok(())
     }
     fn populate_token_type_map(
         &self,
